@@ -35,6 +35,9 @@ _re_ident_or_num = re.compile(r'''(?x)
 ''')
 
 
+_re_bidi_control = re.compile('[\u202A-\u202E\u2066-\u2069]')
+
+
 def escape_string(s: str) -> str:
     # characters escaped according to
     # https://www.edgedb.com/docs/reference/edgeql/lexical#strings
@@ -49,6 +52,11 @@ def escape_string(s: str) -> str:
     result = result.replace('\n', '\\n')
     result = result.replace('\r', '\\r')
     result = result.replace('\t', '\\t')
+
+    # bidirectional control characters are rejected by the lexer
+    # unless written in escaped form
+    result = _re_bidi_control.sub(
+        lambda m: '\\u{:04x}'.format(ord(m.group(0))), result)
 
     return result
 
